@@ -163,6 +163,9 @@ def run_case(case) -> Outcome:
             if op["o"] == "drop":
                 if is_method:
                     r = op["r"] % 3
+                    # free the old receiver FIRST, then allocate: CPython then tends to reuse the freed address, so a
+                    # key built from id(receiver) (instead of the receiver itself) would serve the dead one's entry
+                    receivers[r] = None
                     receivers[r] = Holder(next(recv_counter))
                 continue
             args, kwargs, bound = _call_args(op["form"])
@@ -317,7 +320,28 @@ def strategy(tier):
             "ops": draw(st.lists(st.one_of(*ops), min_size=4, max_size=max_len)),
         }
 
-    return cases()
+    @st.composite
+    def expiry_lru(draw):
+        """staggered insertion, then the oldest key expires alone and is recomputed, then a new key forces an eviction:
+        the recomputed key is the most recently used one and must survive"""
+        variant = draw(st.sampled_from(VARIANTS))
+        limit = draw(st.integers(2, 4))
+        exp = draw(st.sampled_from([1, 2.5, 4]))
+        keys = [["pos", i, 0] for i in draw(st.permutations([0, 1, 2, 3, 4, 5, 6]))[: limit + 1]]
+        call = lambda k: {"o": "call", "r": 0, "form": k, "raise": False}  # noqa: E731
+        gap = draw(st.sampled_from([0.125, 0.5]))
+        ops = []
+        for k in keys[:limit]:
+            ops += [call(k), {"o": "adv", "dt": gap}]
+        # now: first key's age = limit*gap; advance so that only the first one (or the first few) is expired
+        ops.append({"o": "adv", "dt": draw(st.sampled_from([exp - (limit - 1) * gap, exp - limit * gap + 0.125, 0.125, exp]))})
+        ops += [call(keys[0]), call(keys[limit]), call(keys[0])]
+        if draw(st.booleans()):
+            ops.insert(draw(st.integers(0, len(ops))), {"o": "drop", "r": 0})
+        ops += draw(st.lists(st.sampled_from([call(k) for k in keys] + [{"o": "adv", "dt": 0.5}]), max_size=6))
+        return {"variant": variant, "limit": limit, "exp": exp, "ops": [o for o in ops if o.get("dt", 1) > 0]}
+
+    return st.one_of(cases(), cases(), expiry_lru())
 
 
 def enumerate_cases(tier):
